@@ -32,7 +32,7 @@ type solverSpec struct {
 var solvers = []solverSpec{
 	{"z3-5.1.0", func(f string, t int) []string { return []string{"z3-new", fmt.Sprintf("-T:%d", t), f} }},
 	{"cvc5-1.0.3", func(f string, t int) []string {
-		return []string{"cvc5", "--nl-ext-tplanes", fmt.Sprintf("--tlimit=%d", t*1000), f}
+		return []string{"cvc5", "--nl-ext-tplanes", "--check-models", fmt.Sprintf("--tlimit=%d", t*1000), f}
 	}},
 	{"z3-4.8.12", func(f string, t int) []string { return []string{"/usr/bin/z3", fmt.Sprintf("-T:%d", t), f} }},
 }
@@ -62,6 +62,9 @@ func runOne(ctx context.Context, sp solverSpec, file string, timeoutS int) (stat
 			continue
 		}
 		kept = append(kept, l)
+	}
+	if strings.Contains(out, "ERRORS SATISFYING") || strings.Contains(out, "Fatal failure") {
+		return "error", out, secs // cvc5 --check-models rejected its own model
 	}
 	if strings.Contains(strings.Join(kept, "\n"), "(error") {
 		// z3 4.8.12 prints an error for get-model after unsat: tolerate exactly that.
@@ -124,20 +127,29 @@ func solve(query string, timeoutS int) SolveResult {
 				ch <- ans{s, o, sp.name, t}
 			}(sp)
 		}
+		nErr, decided := 0, false
+		var errRes SolveResult
 		for i := 0; i < len(solvers); i++ {
 			a := <-ch
 			addSolverTime(a.name, a.secs)
 			if a.st == "error" {
-				res = SolveResult{Status: "error", Solver: a.name, Secs: a.secs, Output: a.out}
-				break
+				// one solver rejecting the query (e.g. cvc5's array-theory limits, or a model that fails cvc5's own
+				// --check-models) must not stop the others: it only counts if nobody decides
+				nErr++
+				errRes = SolveResult{Status: "error", Solver: a.name, Secs: a.secs, Output: a.out}
+				continue
 			}
 			if a.st == "sat" || a.st == "unsat" {
 				res = SolveResult{Status: a.st, Solver: a.name, Secs: a.secs, Output: a.out}
+				decided = true
 				break
 			}
 			res = SolveResult{Status: "unknown", Solver: a.name, Secs: a.secs, Output: a.out}
 		}
 		cancel()
+		if !decided && nErr == len(solvers) {
+			res = errRes
+		}
 		if res.Status == "unknown" && systemBusy() {
 			// wall-clock limits are unfair when the machine is oversubscribed: one more race with a longer limit
 			ctx2, cancel2 := context.WithCancel(context.Background())
